@@ -15,7 +15,7 @@ import (
 	"verif/harness/internal/manst"
 )
 
-var prof = manst.Profile{Name: "nbscommit", Hooks: true, MaxK: 4}
+var prof = manst.Profile{Name: "nbscommit", Hooks: true, MaxK: 4, Conjoin: true}
 
 func runCase(e *hx.Env, m *hx.Model, n int, r *hx.Rng, replay *manst.Case) {
 	mode := "file"
